@@ -620,7 +620,7 @@ def _find_files(path, prefix, postfix, ext, known_files=[]):
             if kf not in found:
                 raise FileNotFoundError("Given file " + kf + " does not exist!")
 
-        return known_files
+        return sort_names(list(known_files))
 
     if not found:
         raise FileNotFoundError(f"Error, directory '{path}' not found")
